@@ -122,7 +122,9 @@ impl Seam {
 		let prev = hist.header(gen, parent);
 		let st = hist.state_at(gen, parent);
 		let mut h = BlockHeader::default();
-		h.version = grin_core::consensus::header_version(prev.height + 1);
+		// version 5 as on Mainnet today: the output root commits to the bitmap root (the Testnet schedule would
+		// give version 1 at these heights, whose roots do not); nothing at this seam checks the version schedule
+		h.version = grin_core::core::HeaderVersion(5);
 		h.height = prev.height + 1;
 		h.prev_hash = prev.hash();
 		h.timestamp = prev.timestamp + chrono::Duration::seconds(60);
@@ -282,12 +284,16 @@ enum Op {
 	/// new block with k outputs and a spend selection on top of `parent` (None = current head)
 	Apply { k: usize, sel: Sel, parent: Option<Option<usize>>, commit: bool },
 	Reopen,
+	/// a block on the head whose MMR files were all synced and whose database batch was lost (the process died
+	/// between the two): db directory of before, header MMR and txhashset files of after; then start-up
+	Killed { k: usize, sel: Sel },
 }
 
 fn show(op: &Op) -> String {
 	match op {
 		Op::Apply { k, sel, parent, commit } => format!("apply(+{} -{:?}{}{})", k, sel, match parent { None => "".to_string(), Some(None) => " on genesis".to_string(), Some(Some(i)) => format!(" on b{}", i) }, if *commit { "" } else { " ROLLBACK" }),
 		Op::Reopen => "reopen".into(),
+		Op::Killed { k, sel } => format!("killed-before-db-commit(+{} -{:?})", k, sel),
 	}
 }
 
@@ -328,6 +334,8 @@ struct X<'a> {
 	prefix_ops: Vec<Op>,
 	/// replay: the one history to execute (operation strings)
 	only: Option<Vec<String>>,
+	/// offer the killed-before-db-commit operation
+	killed: bool,
 }
 
 fn check(seam: &Seam, gen: &Block, hist: &Hist, ops: &[String], stage: &str, rep: &mut Report) -> bool {
@@ -417,6 +425,15 @@ fn dfs(x: &mut X<'_>, dir: &Path, hist: &Hist, ops: &mut Vec<String>, rep: &mut 
 	if !ops.is_empty() && ops.last().map(|s| s.as_str()) != Some("reopen") {
 		cands.push(Op::Reopen);
 	}
+	if x.killed {
+		for k in &x.ks {
+			for sel in &x.sels {
+				if *sel != Sel::None {
+					cands.push(Op::Killed { k: *k, sel: sel.clone() });
+				}
+			}
+		}
+	}
 	if ops.len() < x.prefix_ops.len() {
 		cands = vec![x.prefix_ops[ops.len()].clone()];
 	}
@@ -442,6 +459,7 @@ fn dfs(x: &mut X<'_>, dir: &Path, hist: &Hist, ops: &mut Vec<String>, rep: &mut 
 		let d = x.sc.fresh("d");
 		uni::copy_dir(dir, &d);
 		let mut skip = false;
+		let mut killed_pending = false;
 		ops.push(show(op));
 		let mut ok = true;
 		{
@@ -452,6 +470,44 @@ fn dfs(x: &mut X<'_>, dir: &Path, hist: &Hist, ops: &mut Vec<String>, rep: &mut 
 			}
 			match op {
 				Op::Reopen => {}
+				Op::Killed { k, sel } => {
+					let st = hist.state_at(&x.gen, hist.head);
+					let unspent: BTreeSet<u64> = st.utxo.values().map(|u| u.leaf).collect();
+					let spend_idx = select(sel, &unspent, st.n_outputs);
+					if spend_idx.is_empty() || h2.next_out + k > x.pool.outs.len() {
+						skip = true;
+					} else {
+						let by_leaf: std::collections::HashMap<u64, Vec<u8>> = st.utxo.iter().map(|(c, u)| (u.leaf, c.clone())).collect();
+						let inputs: Vec<Commitment> = spend_idx
+							.iter()
+							.map(|l| {
+								let mut cc = [0u8; 33];
+								cc.copy_from_slice(&by_leaf[l]);
+								Commitment(cc)
+							})
+							.collect();
+						let outs = &x.pool.outs[h2.next_out..h2.next_out + k];
+						h2.uniq += 1;
+						match seam.build(&x.gen, hist, hist.head, outs, &inputs, h2.uniq) {
+							Ok(b) => {
+								// the database as it is before the block (LMDB commits are atomic: a batch that was
+								// never committed leaves exactly this)
+								uni::copy_dir(&d.join("multi_lmdb"), &d.join("multi_lmdb.before"));
+								match seam.apply(&x.gen, hist, hist.head, &b, true) {
+									Ok(()) => killed_pending = true,
+									Err(e) => {
+										rep.violation("seam:apply-failed", format!("{} failed: {}", show(op), e), json!({"ops": ops.clone()}));
+										ok = false;
+									}
+								}
+							}
+							Err(e) => {
+								rep.violation("seam:build-failed", format!("{} failed: {}", show(op), e), json!({"ops": ops.clone()}));
+								ok = false;
+							}
+						}
+					}
+				}
 				Op::Apply { k, sel, parent, commit } => {
 					let par = parent.unwrap_or(hist.head);
 					let st = hist.state_at(&x.gen, par);
@@ -495,7 +551,7 @@ fn dfs(x: &mut X<'_>, dir: &Path, hist: &Hist, ops: &mut Vec<String>, rep: &mut 
 					}
 				}
 			}
-			if !skip && ok {
+			if !skip && ok && !killed_pending {
 				rep.transitions += 1;
 				rep.evaluations += 1;
 				ok = check(&seam, &x.gen, &h2, ops, match op { Op::Reopen => "reopen", Op::Apply { commit: false, .. } => "rollback", Op::Apply { parent: Some(_), .. } => "fork-rewind", _ => "apply" }, rep);
@@ -503,9 +559,37 @@ fn dfs(x: &mut X<'_>, dir: &Path, hist: &Hist, ops: &mut Vec<String>, rep: &mut 
 				rep.outcome(&format!("{}:chunks{}", match op { Op::Reopen => "reopen", Op::Apply { commit: false, .. } => "rollback", Op::Apply { parent: Some(_), .. } => "fork", _ => "apply" }, (st.n_outputs + 1023) / 1024));
 			}
 		}
+		if killed_pending && ok {
+			// the chain object is closed: put the database of before back, keep the MMR files of after, start up
+			h2 = hist.clone();
+			h2.uniq += 1;
+			let _ = std::fs::remove_dir_all(d.join("multi_lmdb"));
+			std::fs::rename(d.join("multi_lmdb.before"), d.join("multi_lmdb")).expect("restore db");
+			rep.transitions += 1;
+			rep.evaluations += 1;
+			match uni::open_chain_with(&d, &x.gen, Arc::new(grin_chain::types::NoopAdapter {})) {
+				Err(e) => {
+					rep.violation("bitmap:killed:init-failed", format!("start-up after {} = Err({:?})", show(op), e), json!({"ops": ops.clone()}));
+					ok = false;
+				}
+				Ok(chain) => {
+					let seam = Seam { chain };
+					let want = hist.header(&x.gen, hist.head).hash();
+					let got = seam.chain.head().map(|t| t.last_block_h);
+					if got.as_ref().ok() != Some(&want) {
+						rep.violation("bitmap:killed:head", format!("start-up after {}: head {:?}, expected the head of before {}", show(op), got, want), json!({"ops": ops.clone()}));
+						ok = false;
+					} else {
+						ok = check(&seam, &x.gen, &h2, ops, "killed-restart", rep);
+					}
+					let st = h2.state_at(&x.gen, h2.head);
+					rep.outcome(&format!("killed:chunks{}", (st.n_outputs + 1023) / 1024));
+				}
+			}
+		}
 		if !skip && ok {
 			let st = h2.state_at(&x.gen, h2.head);
-			let key = hash64(&(st.utxo.values().map(|u| u.leaf).collect::<Vec<_>>(), st.n_outputs, h2.blocks.len(), h2.head, x.depth + x.prefix_ops.len() - ops.len(), x.prefix_ops.len()));
+			let key = hash64(&(st.utxo.values().map(|u| u.leaf).collect::<Vec<_>>(), st.n_outputs, h2.blocks.len(), h2.head, x.depth + x.prefix_ops.len() - ops.len(), x.prefix_ops.len(), ops.iter().filter(|o| o.starts_with("killed")).count()));
 			if x.memo.insert(key) {
 				rep.states += 1;
 				rep.distinct += 1;
@@ -541,13 +625,14 @@ fn run(tier: Tier, shard: usize, n: usize) -> Report {
 		Tier::Thorough => (vec![1, 600, 1023, 1025], vec![Sel::None, Sel::FirstOfChunk0, Sel::LastOfChunk0, Sel::FirstOfChunk1, Sel::EveryOtherOfOldestChunk, Sel::AllOfLastPartialChunk, Sel::AllOfOldestChunk, Sel::AllOfChunk1], 4),
 	};
 	rep.extra.insert("bound_depth".into(), json!(depth));
-	let mut x = X { sc: &sc, gen, pool: Pool::new((depth + 1) * 1025 + 8), ks, sels, depth, memo: HashSet::new(), me: shard, n, prefix_ops: vec![], only: None };
+	let mut x = X { sc: &sc, gen, pool: Pool::new((depth + 1) * 1025 + 8), ks, sels, depth, memo: HashSet::new(), me: shard, n, prefix_ops: vec![], only: None, killed: false };
 	let hist = Hist { blocks: vec![], head: None, next_out: 0, uniq: 0 };
 	let mut ops = vec![];
 	dfs(&mut x, &root, &hist, &mut ops, &mut rep, (0, n));
 	// second start: a state that already spans two chunks (one block of 1025 outputs), so that
 	// histories such as [block, block spending in chunk 0, fork below both] fit the depth bound
 	x.prefix_ops = vec![Op::Apply { k: 1025, sel: Sel::None, parent: None, commit: true }];
+	x.killed = true;
 	if tier == Tier::Quick {
 		x.ks = vec![600];
 		x.sels = vec![Sel::None, Sel::FirstOfChunk0, Sel::LastOfChunk0, Sel::FirstOfChunk1];
@@ -605,7 +690,7 @@ impl Engine for C15 {
 		}
 		let all_sels = vec![Sel::None, Sel::FirstOfChunk0, Sel::LastOfChunk0, Sel::FirstOfChunk1, Sel::EveryOtherOfOldestChunk, Sel::AllOfLastPartialChunk, Sel::AllOfOldestChunk, Sel::AllOfChunk1];
 		let depth = only.len();
-		let mut x = X { sc: &sc, gen, pool: Pool::new((depth + 1) * 1025 + 8), ks: vec![1, 600, 1023, 1024, 1025], sels: all_sels, depth, memo: HashSet::new(), me: 0, n: 1, prefix_ops: vec![], only: Some(only.clone()) };
+		let mut x = X { sc: &sc, gen, pool: Pool::new((depth + 1) * 1025 + 8), ks: vec![1, 600, 1023, 1024, 1025], sels: all_sels, depth, memo: HashSet::new(), me: 0, n: 1, prefix_ops: vec![], only: Some(only.clone()), killed: true };
 		let hist = Hist { blocks: vec![], head: None, next_out: 0, uniq: 0 };
 		let mut rep = Report::new();
 		let mut ops = vec![];
